@@ -1,6 +1,16 @@
 """Property -> packs, bounded stand-ins, native replay harness, notes (read by pyvc.check)."""
 
 REGISTRY = {
+    "C03": dict(
+        packs=["c03", "c13"], level="proof",
+        replay=dict(script="replay/c03.py", args=[], timeout=900),
+        bounded=[dict(name="round-trip-battery", script="replay/c03.py", args=[],
+                      bound="15 objects x 16 compress forms x 7 file names (+ renamed copy, open file, BytesIO); shared/recursive references under every protocol >= 2; 5 invalid requests")],
+        trusted=["each codec's writer output starts with its magic prefix and its reader inverts its writer (zlib/gzip via C13's contracts; bz2/lzma/xz/lz4 external)",
+                 "pickle._Pickler/_Unpickler round-trip values with shared and recursive references", "io.BufferedReader/Writer are transparent"],
+        assumptions=["only the compressors registered by numpy_pickle.py", "protocol >= 2 pickles start with byte 0x80", "NumpyPickler.save of a non-array object is Pickler.save (array branch: C19)"],
+        undecided_clauses=["equality of reconstructed user objects is a property of pickle (assumed); the joblib-owned part is format agreement: writer chosen by dump == reader chosen by load"],
+    ),
     "C08": dict(
         packs=["c08"], level="proof",
         replay=dict(script="replay/c08.py", args=["3"], timeout=600),
@@ -154,6 +164,15 @@ NOT_APPLICABLE = {
 }
 
 MANIFEST_TEXT = {
+    "C03": dict(
+        text="Format agreement between writer and reader, proved on the real code with the compressor table rebuilt from the sources on every run: dump's total decision "
+             "table over every compress form x target kind (explicit (method, level) wins over the extension; an extension selects its compressor; level 0 without "
+             "extension is raw; invalid level/method/target raise ValueError and write nothing; exactly one pickle goes into exactly the opened writer), "
+             "_write_fileobject (requested method, zlib fallback), _detect_compressor on symbolic first bytes (returns the compressor whose prefix they start with, restores "
+             "the position), _validate_fileobject_and_memmap (opens that compressor's reader on that stream, never memmaps compressed data), all wrapper factories; "
+             "structural obligations on the real constants: prefixes non-empty, prefix-free, none can start a raw pickle, extensions distinct.",
+        note="Assumed: codecs and pickle. The round trip of values themselves is the codecs' and pickle's; zlib/gzip file objects are under contract in C13.",
+    ),
     "C08": dict(
         text="Relational contracts by self-composition on the real methods: two runs of Hasher._batch_setitems / _ConsistentSet.__init__ / save_set on arbitrary "
              "re-orderings of one abstract collection, in interpreters with different string-hash seeds, hand identical token sequences to the base pickler - on the "
